@@ -29,6 +29,7 @@ package c15
 import (
 	"fmt"
 	"os"
+	"path/filepath"
 	"regexp"
 	"sort"
 	"strings"
@@ -208,6 +209,8 @@ func (w *worker) start() error {
 		w.c.Observe("object with a short retention refused while seeding: " + r.String())
 	}
 	env.GWs[0].Stop()
+	// what a CreateBucket killed between its mkdir and its attribute writes leaves behind
+	os.Mkdir(filepath.Join(st.Root, "c15-half-created-bucket"), 0o755)
 	w.tmpl = fx.UniqueDir("c15-" + strings.ReplaceAll(w.lane, "/", "-") + "-template")
 	return snap.CopyTree(st.Base, w.tmpl)
 }
@@ -614,7 +617,12 @@ func (w *worker) runAll() {
 		w.c.Inconclusive("read-write gateway: " + err.Error())
 		return
 	}
-	tmplSnap := w.base
+	// the store as it was seeded, before any gateway of this phase touched it
+	tmplSnap, err := snap.Take(w.tmpl, skipIAM)
+	if err != nil {
+		w.c.Inconclusive("snapshot of the template: " + err.Error())
+		return
+	}
 	if !w.twin(entries) {
 		return
 	}
@@ -624,8 +632,16 @@ func (w *worker) runAll() {
 		w.c.Inconclusive("read-only gateway: " + err.Error())
 		return
 	}
+	// starting in read-only mode is no licence to tidy up: the store must be served as it was found
+	w.c.Eval(1)
 	if d := snap.Diff(tmplSnap, w.base); len(d) > 0 {
-		w.c.Observe("starting the read-only gateway changed the store: " + d[0])
+		w.c.Violation("startup:"+w.caller+":read-only-gateway-changed-the-store", w.lane+"/startup", map[string]any{"config": w.cfg.name, "tree_diff": short(d),
+			"store": "seeded store plus an empty directory without bucket attributes (what a CreateBucket killed after its mkdir leaves) and an object whose retention runs out"})
+		if err := w.takeBase(); err != nil {
+			return
+		}
+	} else {
+		w.c.Distinct(w.cfg.name + "|startup-leaves-the-store-alone|" + w.caller)
 	}
 	w.readonly(entries)
 	w.decorated(entries)
